@@ -313,8 +313,13 @@ class Analyzer:
             a = t['args'][0]
             if is_place(a):
                 return lin('%s(%s)' % (n.split('::')[-2] + '.len', self.fn.canon_str({'l': a['pl']['l'], 'p': a['pl']['p'] + ['deref'], 'ty': ''})))
-        if n.endswith('std::cmp::Ord::min') or n.endswith('std::cmp::Ord::max') or n == 'std::cmp::min' or n == 'std::cmp::max':
-            return None
+        if (re.search(r'as std::convert::From<u(8|16|32|64|size)>>::from$', n) or re.search(r'std::convert::From<u(8|16|32|64)> for u(16|32|64|size)>::from$', n) or n == '<T as std::convert::Into<U>>::into') and len(t['args']) == 1:
+            # lossless widening conversion between unsigned integers (usize::from(x), x.into())
+            a = t['args'][0]
+            sty = (a['pl'].get('ty') or self.fn.local_ty(a['pl']['l'])) if is_place(a) else a.get('ty', '')
+            dty = self.fn.local_ty(t['dest']['l']) if not t['dest']['p'] else ''
+            if sty in UMAX and dty in UMAX and UMAX[sty] <= UMAX[dty]:
+                return self.ev_op(a, depth + 1)
         return None
 
     # ---------------- stability (no redefinition between a definition/guard point and the site)
